@@ -14,7 +14,7 @@ use std::collections::{BTreeMap, BTreeSet};
 
 fn show(f: &ExternalFile) -> String { format!("{}", f) }
 
-async fn check_state(w: &World, rep: &mut Report, seed: u64, script: &[String], contents: &BTreeMap<(VaultId, SecretId), Vec<u8>>) {
+async fn check_state(w: &World, rep: &mut Report, seed: u64, script: &[String], contents: &BTreeMap<(VaultId, SecretId), Vec<u8>>, alt: &BTreeMap<(VaultId, SecretId), Vec<u8>>) {
     let a = w.devices[0].lock().await;
     let paths = a.paths();
     // blobs on disk
@@ -36,7 +36,7 @@ async fn check_state(w: &World, rep: &mut Report, seed: u64, script: &[String], 
         }
         if let Some(orig) = contents.get(&(*f.vault_id(), *f.secret_id())) {
             match a.download_file(f.vault_id(), f.secret_id(), f.file_name()).await {
-                Ok(plain) => if &plain != orig { rep.spec_fail("c17-blob-decrypts-to-other-content", json!({"case_seed": seed, "file": show(f)}), "the attachment does not decrypt to the original file"); },
+                Ok(plain) => if &plain != orig && alt.get(&(*f.vault_id(), *f.secret_id())) != Some(&plain) { rep.spec_fail("c17-blob-decrypts-to-other-content", json!({"case_seed": seed, "file": show(f)}), "the attachment does not decrypt to the original file"); },
                 Err(e) => rep.spec_fail("c17-blob-does-not-decrypt", json!({"case_seed": seed, "file": show(f)}), &e.to_string()),
             }
         }
@@ -45,6 +45,8 @@ async fn check_state(w: &World, rep: &mut Report, seed: u64, script: &[String], 
     let live: BTreeSet<(VaultId, SecretId)> = contents.keys().cloned().collect();
     for f in files.iter() { if !live.contains(&(*f.vault_id(), *f.secret_id())) { rep.spec_fail("c17-blob-for-deleted-secret-or-folder", json!({"case_seed": seed, "script": script, "file": show(f)}), "a blob remains for a secret / folder that was deleted"); } }
     for k in &live { if !files.iter().any(|f| (*f.vault_id(), *f.secret_id()) == *k) { rep.spec_fail("c17-live-file-secret-without-blob", json!({"case_seed": seed, "script": script}), "a live file secret has no blob"); } }
+    // a secret with two attachments has two blobs
+    for k in alt.keys() { let n = files.iter().filter(|f| (*f.vault_id(), *f.secret_id()) == *k).count(); if n != 2 { rep.spec_fail("c17-secret-with-two-attachments-has-other-number-of-blobs", json!({"case_seed": seed, "script": script, "blobs": n}), "a live secret with two attachments does not have exactly two blobs at its place"); } }
 }
 
 pub async fn run_case(backend: &str, seed: u64, rep: &mut Report) -> anyhow::Result<()> {
@@ -58,10 +60,16 @@ pub async fn run_case(backend: &str, seed: u64, rep: &mut Report) -> anyhow::Res
     let mut extra_alive = true;
     // secrets of another kind that carry their file as an attachment field
     let mut attached: BTreeSet<(VaultId, SecretId)> = BTreeSet::new();
+    // second attachment of a secret (same file name as the first, other content)
+    let mut alt: BTreeMap<(VaultId, SecretId), Vec<u8>> = BTreeMap::new();
+    let mut moved_two = false;
     let n_ops = rng.range(5, if rep.tier == "thorough" { 10 } else { 8 });
     for step in 0..n_ops {
         let keys: Vec<(VaultId, SecretId)> = contents.keys().cloned().collect();
-        let kind = rng.below(13);
+        let mut kind = rng.below(13);
+        // a secret with two attachments is moved once as soon as there is one
+        let force_move_two = !moved_two && extra_alive && !alt.is_empty();
+        if force_move_two { kind = 6; }
         let mut a = w.devices[0].lock().await;
         if kind >= 10 && (kind < 11 || attached.is_empty()) {
             // a secret of another kind (a note) that carries a file as an attachment field
@@ -71,9 +79,19 @@ pub async fn run_case(backend: &str, seed: u64, rep: &mut Report) -> anyhow::Res
             let att_meta = SecretMeta::new(format!("attachment{step}"), att.kind());
             let mut note = Secret::Note { text: format!("note {step}").into(), user_data: Default::default() };
             note.add_field(sos_vault::secret::SecretRow::new(SecretId::new_v4(), att_meta, att));
+            // half of these carry a second attachment with the SAME file name (from another directory) and other content
+            let second: Option<Vec<u8>> = if rng.chance(1, 2) {
+                let body2: Vec<u8> = (0..rng.range(1, 2000)).map(|_| rng.below(256) as u8).collect();
+                let d2 = srcdir.join("again"); std::fs::create_dir_all(&d2)?;
+                let path2 = d2.join(format!("a{step}.bin")); std::fs::write(&path2, &body2)?;
+                let att2: Secret = path2.try_into()?;
+                let m2 = SecretMeta::new(format!("attachment{step}-again"), att2.kind());
+                note.add_field(sos_vault::secret::SecretRow::new(SecretId::new_v4(), m2, att2));
+                Some(body2)
+            } else { None };
             let folder = if extra_alive && rng.chance(1, 3) { extra } else { default };
             match a.create_secret(SecretMeta::new(format!("note-with-attachment{step}"), note.kind()), note, AccessOptions { folder: Some(folder), ..Default::default() }).await {
-                Ok(ch) => { contents.insert((folder, ch.id), body); attached.insert((folder, ch.id)); script.push(format!("create note with an attachment in {}", if folder == default { "default" } else { "extra" })); rep.count("op:note-with-attachment"); }
+                Ok(ch) => { contents.insert((folder, ch.id), body); attached.insert((folder, ch.id)); if let Some(b2) = second { alt.insert((folder, ch.id), b2); rep.count("op:note-with-two-attachments-same-name"); } script.push(format!("create note with an attachment in {}", if folder == default { "default" } else { "extra" })); rep.count("op:note-with-attachment"); }
                 Err(e) => rep.spec_fail("c17-create-file-secret-error", json!({"case_seed": seed}), &e.to_string()),
             }
         } else if kind >= 11 {
@@ -85,7 +103,7 @@ pub async fn run_case(backend: &str, seed: u64, rep: &mut Report) -> anyhow::Res
                     let ids: Vec<SecretId> = secret.user_data().fields().iter().map(|r| *r.id()).collect();
                     for id in ids { secret.remove_field(&id); }
                     match a.update_secret(&s, row.meta().clone(), Some(secret), AccessOptions { folder: Some(f), ..Default::default() }).await {
-                        Ok(_) => { contents.remove(&(f, s)); attached.remove(&(f, s)); script.push("detach the attachment".into()); rep.count("op:detach-attachment"); }
+                        Ok(_) => { contents.remove(&(f, s)); attached.remove(&(f, s)); alt.remove(&(f, s)); script.push("detach the attachment".into()); rep.count("op:detach-attachment"); }
                         Err(e) => rep.spec_fail("c17-update-file-error", json!({"case_seed": seed, "script": script}), &e.to_string()),
                     }
                 }
@@ -111,26 +129,26 @@ pub async fn run_case(backend: &str, seed: u64, rep: &mut Report) -> anyhow::Res
                 Err(e) => rep.spec_fail("c17-update-file-error", json!({"case_seed": seed, "script": script}), &e.to_string()),
             }
         } else if kind < 8 && extra_alive {
-            let (f, s) = *rng.pick(&keys);
+            let (f, s) = if force_move_two { moved_two = true; *alt.keys().next().unwrap() } else { *rng.pick(&keys) };
             let dest = if f == default { extra } else { default };
             match a.move_secret(&s, &f, &dest, Default::default()).await {
-                Ok(mv) => { if let Some(b) = contents.remove(&(f, s)) { contents.insert((dest, mv.id), b); } if attached.remove(&(f, s)) { attached.insert((dest, mv.id)); } script.push("move file secret".into()); }
+                Ok(mv) => { if let Some(b) = contents.remove(&(f, s)) { contents.insert((dest, mv.id), b); } if attached.remove(&(f, s)) { attached.insert((dest, mv.id)); } if let Some(b) = alt.remove(&(f, s)) { alt.insert((dest, mv.id), b); rep.count("op:move-secret-with-two-attachments"); } script.push("move file secret".into()); }
                 Err(e) => rep.spec_fail("c17-move-file-secret-error", json!({"case_seed": seed, "script": script}), &e.to_string()),
             }
         } else if kind < 9 {
             let (f, s) = *rng.pick(&keys);
             match a.delete_secret(&s, AccessOptions { folder: Some(f), ..Default::default() }).await {
-                Ok(_) => { contents.remove(&(f, s)); attached.remove(&(f, s)); script.push("delete file secret".into()); }
+                Ok(_) => { contents.remove(&(f, s)); attached.remove(&(f, s)); alt.remove(&(f, s)); script.push("delete file secret".into()); }
                 Err(e) => rep.spec_fail("c17-delete-file-secret-error", json!({"case_seed": seed, "script": script}), &e.to_string()),
             }
         } else if extra_alive {
             match a.delete_folder(&extra).await {
-                Ok(_) => { contents.retain(|k, _| k.0 != extra); attached.retain(|k| k.0 != extra); extra_alive = false; script.push("delete folder".into()); }
+                Ok(_) => { contents.retain(|k, _| k.0 != extra); attached.retain(|k| k.0 != extra); alt.retain(|k, _| k.0 != extra); extra_alive = false; script.push("delete folder".into()); }
                 Err(e) => rep.spec_fail("c17-delete-folder-error", json!({"case_seed": seed, "script": script}), &e.to_string()),
             }
         }
         drop(a);
-        check_state(&w, rep, seed, &script, &contents).await;
+        check_state(&w, rep, seed, &script, &contents, &alt).await;
     }
     let _ = std::fs::remove_dir_all(&srcdir);
     rep.case(&format!("{backend}:{}", script.join(";")), !contents.is_empty() || script.len() > 2);
